@@ -294,6 +294,7 @@ pub fn run(out: &mut Out, rng: &mut Rng, thorough: bool) {
 	let stride_b = if thorough { 1 } else { 2 };
 	let stride_c = if thorough { 1 } else { 3 };
 	let stride_d = 1;
+	let mut guard_triples: std::collections::HashSet<(usize, usize, usize)> = std::collections::HashSet::new();
 	for (i, (label, data)) in inputs.iter().enumerate() {
 		out.count(&format!("inputs.{}", label.split('.').take(2).collect::<Vec<_>>().join(".")));
 		let to = if i % 5 == 4 { Fmt::Yaml } else if i % 5 == 3 { Fmt::Msgpack } else { Fmt::Json };
@@ -320,8 +321,21 @@ pub fn run(out: &mut Out, rng: &mut Rng, thorough: bool) {
 				c.get().min(4)
 			};
 			for nth in 1..=calls {
+				// What the nth call looks like (buffer size, honest count): one
+				// correspondence case per distinct (size, reported, written).
+				let seen = Rc::new(Cell::new(None));
+				let _ = catch(|| xt::verif::yaml_events(Box::new(Liar { data: data.clone(), pos: 0, cap, nth, excess: 0, calls: 0, seen: seen.clone() })));
+				let Some((size, n)) = seen.get() else { continue };
 				for e in (1..=8usize).map(Excess::Abs).chain([Excess::Abs(usize::MAX / 2), Excess::ToSize(0), Excess::ToSize(1)]) {
-					guards_case(out, data, nth, cap, e);
+					let reported = match e {
+						Excess::Abs(x) => n.saturating_add(x),
+						Excess::ToSize(d) => (size as i64 + d).max(0) as usize,
+					};
+					if guard_triples.insert((size, reported, n)) {
+						guards_case(out, data, nth, cap, e);
+					} else {
+						out.count("guards.duplicate_triple_skipped");
+					}
 				}
 			}
 		}
